@@ -1068,10 +1068,15 @@ def model_guard_scopes(body):
         rest_m = masked[gm_.end():end_]
         # a later re-binding of the same name ends the renaming there
         sh_ = re.search(r"(?<![\w])let\s+(?:mut\s+)?%s\b" % re.escape(g_), rest_m)
-        lim = sh_.start() if sh_ else len(rest)
+        lim = len(rest)
+        if sh_:
+            # the initialiser of the re-binding still refers to the guard (`let g = g.as_mut().unwrap();`):
+            # the renaming ends at the end of that statement; the re-bound name itself is left alone
+            se_ = rest_m.find(";", sh_.end())
+            lim = se_ if se_ >= 0 else sh_.start()
         def repl(mm):
             pre = rest_m[max(0, mm.start() - 14):mm.start()]
-            if re.search(r"(drop|drop_guard_)\s*\(\s*$", pre):
+            if re.search(r"(drop|drop_guard_)\s*\(\s*$", pre) or re.search(r"\blet\s+(mut\s+)?$", pre):
                 return mm.group(0)
             return mm.group(0) + ".0"
         head = re.sub(r"(?<![\w.])%s\b(?!\s*:)" % re.escape(g_), repl, rest[:lim]) if True else rest[:lim]
@@ -1359,6 +1364,14 @@ def process_fn(fn, spec, handle, stats, canary):
         return hdr[:-1] + "\n      decreases %s.len() - i_,\n{" % m_.group(1)
     body = re.sub(r"while\s*/\*R9:E=(.*?);X=.*?\*/[^{]*\{", _default_measure, body)
     clauses = list(spec.fn.get(name, []))
+    # a parameter spelled `_x` (unused in the body) that the contract calls `x`: same parameter (R1)
+    ctx_ = "\n".join(clauses)
+    for um_ in re.finditer(r"[(,]\s*_([a-z]\w*)\s*:", sig):
+        nm_ = um_.group(1)
+        if re.search(r"\b%s\b" % nm_, ctx_) and not re.search(r"(?<![\w])%s\b" % nm_, sig + body):
+            sig = re.sub(r"(?<![\w])_%s\b" % nm_, nm_, sig)
+            body = re.sub(r"(?<![\w])_%s\b" % nm_, nm_, body)
+            stats["R1"] += 1
     if canary and (clauses or name in spec.fn) and name not in spec.trusted and name not in spec.canary_skip:
         # vacuity canary: the entry of every contracted function must be reachable, i.e. its
         # preconditions (and the representation invariant) must be satisfiable
